@@ -12,12 +12,23 @@
       `C04_walker_unknown_tag` — tag 0 and tags > 12 are errors;
     * `C04_scanner_stack_safe` — no scanner step, `eof`, `scanWhile` or `scanNext` ever indexes an empty parse-state stack.
 
-  What is left OPEN (statements below, in comments) and is TESTED instead by the three-way comparison
-  implementation = model = independent grammar reader (`Driver/C04.lean`): `C04_parse_total` (the
-  `panic(phasePanicMsg)` branches), `C04_roundtrip` / `C04_writer_tokens`, `C04_tagtype_agrees`,
-  `C04_parse_sound`, `C04_parse_eq_spec`, `C04_walker_prefix`.
+    * `C04_parse_total`     — the parser never panics and never exhausts its linear fuel, on every text (phase
+                              invariant of scanner and emitters; `C04_parseLiteral_total`);
+    * `C04_walker_prefix`, `C04_walker_negative_length`, `C04_walker_frag_invariant`;
+    * `C04_tagtype_agrees`  — `TagType()` = the tag the emitter itself writes for the value;
+    * `C04_roundtrip_scalar`, `C04_roundtrip_array` (both directions), `C04_roundtrip_compound` (text → binary,
+      generalised statement closed under compounds to any depth).
+
+  What is left OPEN (statements at the end, in comments) and is TESTED instead by the three-way comparison
+  implementation = model = independent grammar reader (`Driver/C04.lean`): the round trip through lists and the
+  assembled statement over trees, `C04_writer_tokens`, `C04_parse_sound`, `C04_parse_eq_spec`.
 -/
-import GoMC.Lemmas.SNBT
+import GoMC.Lemmas.SNBTFuel
+import GoMC.Lemmas.SNBTWalker
+import GoMC.Lemmas.SNBTTag
+import GoMC.Lemmas.SNBTRoundScalar
+import GoMC.Lemmas.SNBTRoundArr
+import GoMC.Lemmas.SNBTRoundComp
 import GoMC.Spec.SNBT
 import GoMC.Gen.SNBT
 namespace GoMC.Props.C04
@@ -147,6 +158,37 @@ theorem C04_walker_unknown_tag (fo : FmtOracle) (tag : Byte) (s : Stream) (h : t
   · unfold walkFuel
     exact encode_unknown_tag fo _ tag s h
 
+/-- `C04_walker_prefix`: if `UnmarshalNBT` accepted a document — consuming exactly `pre ++ more` of the source — then
+on any source holding only the strict prefix `pre` it does not succeed (an error, never a truncated text) -/
+theorem C04_walker_prefix (fo : FmtOracle) (tag : Byte) (s s' : Stream) (text : Bytes) (pre more rest : Bytes)
+    (hs : s.flat = pre ++ more ++ rest) (hrun : unmarshalNBT fo tag s = (Res.ok text, s')) (hres : s'.flat = rest)
+    (hmore : more ≠ []) (t : Stream) (ht : t.flat = pre) : ∀ b, (unmarshalNBT fo tag t).1 ≠ Res.ok b :=
+  unmarshalNBT_prefix fo tag s s' text pre more rest hs hrun hres hmore t ht
+
+/-- negative lengths are errors: a byte/int/long array (tags 7, 11, 12) whose 32-bit count has the sign bit set,
+and a list (tag 9) whose count has it -/
+theorem C04_walker_negative_length (fo : FmtOracle) (s : Stream) (b0 b1 b2 b3 : Byte) (rest : Bytes)
+    (hneg : 128 ≤ b0.toNat) :
+    (∀ tag : Byte, (tag = 7 ∨ tag = 11 ∨ tag = 12) → s.flat = b0 :: b1 :: b2 :: b3 :: rest →
+        (unmarshalNBT fo tag s).1 = Res.err) ∧
+    (∀ e : Byte, s.flat = e :: b0 :: b1 :: b2 :: b3 :: rest → (unmarshalNBT fo 9 s).1 = Res.err) := by
+  refine ⟨fun tag htag hs => ?_, fun e hs => ?_⟩
+  · unfold unmarshalNBT
+    have : (tag == 0) = false := by rcases htag with h | h | h <;> subst h <;> decide
+    simp only [this, Bool.false_eq_true, if_false]
+    unfold walkFuel
+    exact encode_neg_array fo _ tag s b0 b1 b2 b3 rest htag hs hneg
+  · unfold unmarshalNBT
+    simp only [show ((9 : Byte) == 0) = false by decide, Bool.false_eq_true, if_false]
+    unfold walkFuel
+    exact encode_neg_list fo _ s e b0 b1 b2 b3 rest hs hneg
+
+/-- the walker is fragmentation invariant (same result, same bytes left, for any two deliveries of the same
+bytes) and extension stable for every fuel — C09 reuses this -/
+theorem C04_walker_frag_invariant (fo : FmtOracle) (tag : Byte) :
+    Rd.FragInv (unmarshalNBT fo tag) ∧ ∀ fuel, Rd.ExtStable (encode fo fuel tag) :=
+  ⟨unmarshalNBT_fragInv fo tag, fun fuel => (walker_extStable fo fuel).1 tag⟩
+
 /-! ### the scanner -/
 
 /-- from `reset`, through any sequence of `scanWhile` / `scanNext`, the scanner never indexes an empty parse-state
@@ -161,24 +203,165 @@ theorem C04_scanner_stack_safe :
   ⟨Scanner.reset_good, fun s c h => ⟨Scanner.step_good s c h, (Scanner.step_good s c h).1⟩,
    Scanner.eof_good, scanWhile_good, scanNext_good⟩
 
+/-! ### the parser is total -/
+
+/-- `C04_parse_total`: for EVERY text (and every float oracle) `StringifiedMessage.MarshalNBT` and `TagType()`
+return a value or an error — never a panic: every `panic(phasePanicMsg)`, every slice expression `d.data[a:b]`,
+every `literal[0]`/`literal[i]` index and every type assertion of nbt/snbt_decode.go is unreachable (the phase
+invariant of `Lemmas/SNBTPhase.lean`: opcode, scanner state and stack top agree at every program point of the six
+mutually recursive emitters), the scanner never indexes an empty stack, and the recursion needs at most
+`2·len + 8` calls/iterations (every recursive call or loop iteration consumes input). -/
+theorem C04_parse_total (fo : FloatOracle) (text : Bytes) :
+    marshal fo text ≠ .panic ∧ marshal fo text ≠ .fuel ∧ tagType fo text ≠ .panic :=
+  ⟨marshalWith_no_panic fo _ text, marshal_no_fuel fo text, tagType_no_panic fo text⟩
+
+/-- the panic-freedom does not depend on the fuel: with any fuel the model returns ok / err / out-of-fuel -/
+theorem C04_parse_no_panic_any_fuel (fo : FloatOracle) (fuel : Nat) (text : Bytes) :
+    marshalWith fo fuel text ≠ .panic := marshalWith_no_panic fo fuel text
+
+/-- `parseLiteral` is total on every literal the scanner can deliver (`LitShape`: a closed quoted string with
+well-formed escapes, or bytes of the unquoted class): no index out of range, no `panic(phasePanicMsg)` -/
+theorem C04_parseLiteral_total (fo : FloatOracle) (lit : Bytes) (h : LitShape lit) :
+    ∃ t v, parseLiteral fo lit = .ok (t, v) := parseLiteral_total fo lit h
+
+example : LitShape [34, 97, 92, 34, 34] ∧ LitShape [49, 46, 53, 101] ∧ ¬ LitShape [] := by
+  refine ⟨?_, ?_, by simp [LitShape]⟩
+  · simp only [LitShape]; exact ⟨[97, 34], fun a => by simp [unquoteLoop]⟩
+  · exact litShape_of_allowed _ (by simp) (by decide)
+
+/-- `C04_tagtype_agrees`: whenever the parser produces a document for a text, `TagType()` of that text is exactly
+the tag the emitter determines for the value — the byte `writeValue` puts in front of the same payload when it is
+asked to write the tag (as it does for every value nested in a compound): same final state, same payload, and
+the header is `[TagType(), 0, 0]` (tag, empty name) -/
+theorem C04_tagtype_agrees (fo : FloatOracle) (fuel : Nat) (text : Bytes) (d : DState) (out : Bytes)
+    (h : writeValue fo fuel { data := text, scan := Scanner.reset } false [] = .ok (d, out)) :
+    ∃ t, tagType fo text = .ok t ∧
+      writeValue fo fuel { data := text, scan := Scanner.reset } true [] = .ok (d, t :: 0 :: 0 :: out) :=
+  tagType_agrees fo fuel text d out h
+
+/-! ### round trip -/
+
+/-- `C04_roundtrip_scalar`: for every Byte, Short, Int, Long, Float, Double and String value `t` (floats under the
+hypotheses on `strconv`: the printed text has the 'f' shape `[-]digits[.digits]` and parses back to the same bits —
+true for finite floats; strings shorter than 2^15 bytes, the limit of Go's signed length) the walker turns the
+payload `encPayload t` into the text `w = scalarText t`, consuming exactly the payload, and `MarshalNBT` of `w`
+gives back exactly `encPayload t`: integers and strings exact for ALL values (extreme values, empty and
+number-like strings, strings with both quotes and backslashes), floats exact. -/
+theorem C04_roundtrip_scalar (fo : FloatOracle) (fm : FmtOracle) (t : Spec.NBT) (w : Bytes)
+    (hw : scalarText fm t = some w) (hf : FloatHyp fo fm t) (hlen : ∀ s, t = .string s → s.length < 2 ^ 15) :
+    (∃ s', unmarshalNBT fm t.tag (Stream.ofBytes (Spec.encPayload t)) = (Res.ok w, s') ∧ s'.flat = []) ∧
+    marshal fo w = .ok (Spec.encPayload t) := by
+  have hwf : t.WF := by
+    cases t <;> simp [scalarText] at hw <;> try trivial
+    rename_i str
+    have := hlen str rfl
+    show str.length < 2 ^ 16
+    omega
+  refine ⟨?_, marshal_scalar fo fm t w hw hf hwf⟩
+  have htag : (t.tag == 0) = false := by cases t <;> simp [scalarText] at hw <;> rfl
+  unfold unmarshalNBT
+  simp only [htag, Bool.false_eq_true, if_false]
+  have hfu : walkFuel (Stream.ofBytes (Spec.encPayload t)).flat.length =
+      (2 * (Stream.ofBytes (Spec.encPayload t)).flat.length + 1) + 1 := by unfold walkFuel; omega
+  rw [hfu]
+  exact walker_scalar fm t w hw hlen _ (Stream.ofBytes (Spec.encPayload t)) [] (by simp)
+
+/-- `C04_roundtrip_array`: for every well-formed Byte/Int/Long array `t` (any length < 2^31, any element values)
+the walker turns `encPayload t` into the text `[B;1B,2B]` / `[I;1I,2I]` / `[L;1L,2L]` (`arrayText t`), consuming
+exactly the payload, and `MarshalNBT` of that text gives back exactly `encPayload t` -/
+theorem C04_roundtrip_array (fo : FloatOracle) (fm : FmtOracle) (t : Spec.NBT) (w : Bytes)
+    (hw : arrayText t = some w) (hwf : t.WF) :
+    (∃ s', unmarshalNBT fm t.tag (Stream.ofBytes (Spec.encPayload t)) = (Res.ok w, s') ∧ s'.flat = []) ∧
+    marshal fo w = .ok (Spec.encPayload t) := by
+  refine ⟨?_, marshal_array fo t w hw⟩
+  have htag : (t.tag == 0) = false := by cases t <;> simp [arrayText] at hw <;> rfl
+  unfold unmarshalNBT
+  simp only [htag, Bool.false_eq_true, if_false]
+  have hfu : walkFuel (Stream.ofBytes (Spec.encPayload t)).flat.length =
+      (2 * (Stream.ofBytes (Spec.encPayload t)).flat.length + 1) + 1 := by unfold walkFuel; omega
+  rw [hfu]
+  exact walker_array fm t w hw hwf _ (Stream.ofBytes (Spec.encPayload t)) [] (by simp)
+
+/-- the same evaluation in ANY context (the building block of the tree induction): a typed array text standing
+where a value begins, followed by anything that cannot continue a literal, under any stack within the nesting
+limit — `writeValue` returns exactly the header and payload and leaves the scanner exactly where the enclosing
+emitter expects it (`finish`) -/
+theorem C04_array_in_context (fo : FloatOracle) (x et tt : Byte)
+    (hx : (x = 66 ∧ et = tagByte ∧ tt = tagByteArray) ∨ (x = 73 ∧ et = tagInt ∧ tt = tagIntArray) ∨
+          (x = 76 ∧ et = tagLong ∧ tt = tagLongArray))
+    (elems : List (Bytes × Bytes)) (hel : ∀ e ∈ elems, ArrEl fo et e.1 e.2)
+    (pre k : Bytes) (s : Scanner) (o : Op) (ifw : Bool) (name : Bytes) (f : Nat)
+    (hst : s.st = .beginValue) (he : s.err = false) (ht : s.endTop = false)
+    (hdepth : s.stack.length ≤ maxNestingDepth) (hf : elems.length + 3 ≤ f) :
+    writeValue fo f (DState.mk (pre ++ ([91, x, 59] ++ joinElems (elems.map (fun e : Bytes × Bytes => e.1)) ++ [93]) ++ k)
+        pre.length o s) ifw name =
+      .ok (DState.mk (pre ++ ([91, x, 59] ++ joinElems (elems.map (fun e : Bytes × Bytes => e.1)) ++ [93]) ++ k)
+             (pre.length + ([91, x, 59] ++ joinElems (elems.map (fun e : Bytes × Bytes => e.1)) ++ [93]).length + 1)
+             (finish s k).2 (finish s k).1,
+           hdr ifw tt name ++ (Spec.beBytes 4 elems.length ++ (elems.map (fun e : Bytes × Bytes => e.2)).flatten)) :=
+  array_value fo x et tt hx elems hel pre k s o ifw name f hst he ht hdepth hf
+
+/-- `C04_roundtrip_compound` (the tree induction of DESIGN G.3 for the list-free fragment, as closure rules).
+`ValSpec fo w tag payload dep need` is the generalised statement: in ANY context — any text before, a scanner that
+expects a value under any stack with room for `dep` more levels, any continuation that cannot continue a literal —
+`writeValue` on the text `w` emits exactly the header and `payload`, and leaves `decodeState` exactly where the
+enclosing emitter expects it.  It holds for every scalar and string text, for every typed-array text, and whenever
+it holds for the values of the entries it holds for the compound `{name:value,…}` built from them (names of any
+kind: empty, number-like, needing either quote), one level deeper.  Hence it holds for compounds nested to any
+depth within the limit, and `C04_roundtrip_toplevel` turns it into `MarshalNBT text = payload`. -/
+theorem C04_roundtrip_compound (fo : FloatOracle) (fm : FmtOracle) :
+    (∀ t w, scalarText fm t = some w → FloatHyp fo fm t → ValSpec fo w t.tag (Spec.encPayload t) 0 1) ∧
+    (∀ t w, arrayText t = some w → ValSpec fo w t.tag (Spec.encPayload t) 1 (w.length + 3)) ∧
+    (∀ dep need (es : List Entry), (∀ e ∈ es, ValSpec fo e.w e.tag e.payload dep need) →
+        ValSpec fo ([123] ++ wKvs es ++ [125]) tagCompound (encEntries es ++ [0]) (dep + 1) (need + es.length + 2)) :=
+  ⟨fun t w hw hf => valSpec_scalar fo fm t w hw hf, fun t w hw => valSpec_array fo t w hw,
+   fun dep need es h => valSpec_compound fo dep need es h⟩
+
+theorem C04_roundtrip_toplevel (fo : FloatOracle) (w : Bytes) (tag : Byte) (payload : Bytes) (dep need : Nat)
+    (h : ValSpec fo w tag payload dep need) (hd : dep ≤ maxNestingDepth + 1) (hn : need ≤ parseFuel w) :
+    marshal fo w = .ok payload := marshal_of_valSpec fo w tag payload dep need h hd hn
+
+/-- non-vacuity: `{a:1B,"":{n:[I;-1I]}}` — a nested compound with an empty name and a typed array — parses to its
+binary form, by the closure rules alone -/
+example (fo : FloatOracle) (fm : FmtOracle) :
+    let inner : Entry := ⟨[110], [91, 73, 59] ++ (formatInt (-1) ++ [73]) ++ [93], tagIntArray,
+      Spec.encPayload (.intArray [0xFFFFFFFF])⟩
+    let e1 : Entry := ⟨[97], formatInt 1 ++ [66], tagByte, Spec.encPayload (.byte 1)⟩
+    let e2 : Entry := ⟨[], [123] ++ wKvs [inner] ++ [125], tagCompound, encEntries [inner] ++ [0]⟩
+    ValSpec fo ([123] ++ wKvs [e1, e2] ++ [125]) tagCompound (encEntries [e1, e2] ++ [0]) 3 60 := by
+  intro inner e1 e2
+  have hI : ValSpec fo inner.w inner.tag inner.payload 1 20 :=
+    (valSpec_array fo (.intArray [0xFFFFFFFF]) inner.w rfl).mono (Nat.le_refl _) (by decide)
+  have h2 : ValSpec fo e2.w e2.tag e2.payload 2 30 :=
+    (valSpec_compound fo 1 20 [inner] (by intro e he; simp at he; subst he; exact hI)).mono (Nat.le_refl _) (by decide)
+  have h1 : ValSpec fo e1.w e1.tag e1.payload 2 30 :=
+    (valSpec_scalar fo fm (.byte 1) e1.w rfl trivial).mono (by decide) (by decide)
+  exact (valSpec_compound fo 2 30 [e1, e2] (by
+    intro e he; simp at he; rcases he with rfl | rfl
+    · exact h1
+    · exact h2)).mono (Nat.le_refl _) (by decide)
+
 /-
   OPEN (stated at full strength; checked by the driver on every run, not proved):
 
-  C04_parse_total   : ∀ fo text, marshal fo text ≠ .panic ∧ marshal fo text ≠ .fuel ∧ tagType fo text ≠ .panic
-      -- every `panic(phasePanicMsg)`, slice and `literal[0]` of snbt_decode.go unreachable, fuel 2n+8 suffices.
-      -- Needs the phase invariant "opcode, scanner state and stack top agree" through the six mutually
-      -- recursive emitters; the scanner half (`C04_scanner_stack_safe`) and the string half of
-      -- `parseLiteral` (`C04_escape`) are proved above.  Exhaustively tested on all texts of length ≤ 3
-      -- (thorough: ≤ 4) over a 24-symbol alphabet and ~45 k random/grammar/mutated texts per quick run.
-  C04_roundtrip     : ∀ t, t.WF → (floats of t finite) → (∀ x, pf (ff x) = some x) →
-                        marshal fo (write t) = .ok (encPayload (canon t))
-  C04_writer_tokens : ∀ t, t.WF → … → Spec.SNBT.read fs (write t) = .ok (canon t)
-  C04_tagtype_agrees: marshal fo text = .ok bs → ∃ t, tagType fo text = .ok t.tag ∧ bs = encPayload t
+  C04_roundtrip     : ∀ t, t.WF → (floats of t finite: FloatHyp) → (strings/names < 2^15 bytes) →
+                        unmarshalNBT fm t.tag (encPayload t) = ok (wtext t)  ∧  marshal fo (wtext t) = .ok (encPayload (canon t))
+      -- PROVED above: scalars and strings (`C04_roundtrip_scalar`), typed arrays (`C04_roundtrip_array`), both
+      -- directions; and for the text → binary direction the generalised statement `ValSpec` of DESIGN G.3 with
+      -- its closure under compounds to any depth (`C04_roundtrip_compound`, `C04_roundtrip_toplevel`).
+      -- MISSING: (1) the `ValSpec` closure rule for lists `[v,…]` — the exact evaluation of the three list loops
+      -- `litListLoop` / `listListLoop` / `compListLoop` (same shape as `arrayLoop_spec` / `compLoop_spec`), including
+      -- the scanner's special first-element path for bare strings that begin with `B`, `I` or `L`
+      -- (`stateListOrArray` → `stateListOrArrayT`), and the homogeneity check against `WFList`;
+      -- (2) the function `wtext : NBT → Bytes` and the structural induction that assembles the closure rules into
+      -- one statement over trees; (3) the binary → text direction for compounds and lists (`encode` on
+      -- `encPayload t` prints `wtext t`: an induction over the tree in the `Rd` monad like `walker_array`).
+  C04_writer_tokens : ∀ t, t.WF → … → Spec.SNBT.read fs (wtext t) = .ok (canon t)
   C04_parse_sound   : marshal fo text = .ok bs → ∃ t, t.WF ∧ bs = encPayload t ∧
                         (Spec.SNBT.read fs text = .ok t ∨ Spec.SNBT.read fs text = .unspecified)
   C04_parse_eq_spec : Spec.SNBT.read fs text = .malformed → marshal fo text = .err
-  C04_walker_prefix : a strict prefix of a document is never `ok` for `unmarshalNBT` (needs fuel monotonicity +
-                      `Rd.ExtStable` of the three walker loops).
+      -- these three relate the state-machine parser to the recursive-descent reader of `Spec/SNBT.lean`; they are
+      -- checked on every run by the three-way comparison (implementation = model = spec reader) in `Driver/C04.lean`.
 -/
 
 end GoMC.Props.C04
